@@ -219,6 +219,68 @@ def work(task):
     return nev, fails, cls
 
 
+def variant_task(task):
+    """Two TOCs in one document, a TOC inside a section, fill(use_default_styles=False), fill(document=...)
+    on a detached TOC: every TOC lists every heading (up to its outline level), whatever else is there."""
+    levels, variant = task
+    fails = []
+    nev = 0
+    cls = f"toc-variant={variant}"
+    detail = {"levels": list(levels), "kinds": ["plain"] * len(levels), "outline": 0, "toc_pos": "first", "hist": None, "variant": variant}
+
+    def rec(oracle, exp, act, symptom):
+        fails.append({"signature": f"site=TOC.fill; class={cls}; symptom={symptom}",
+                      "replay": {"replay_module": "mc.checks.c20", **detail, "history": ["fill"], "oracle": oracle, "expected": exp, "actual": act}})
+
+    try:
+        doc = Document("text")
+        body = doc.body
+        body.clear()
+        tocs = [TOC(outline_level=0)]
+        if variant == "in-section":
+            sec = Element.from_tag('<text:section text:name="ST"/>')
+            sec.append(tocs[0])
+            body.append(sec)
+        elif variant != "detached":
+            body.append(tocs[0])
+        for i, lv in enumerate(levels):
+            body.append(Header(lv, f"Title{i}"))
+            body.append(Paragraph(f"para {i}"))
+        if variant == "two-tocs":
+            tocs.append(TOC(outline_level=1, name="Second"))
+            body.append(tocs[1])
+        for t in tocs:
+            nev += 1
+            if variant == "no-default-styles":
+                t.fill(use_default_styles=False)
+            elif variant == "detached":
+                t.fill(document=doc)
+            else:
+                t.fill()
+        if variant == "two-tocs":
+            tocs[0].fill()  # the first one again, after the second exists
+        for t in tocs:
+            limit = int(t.outline_level or 0) or 10
+            want = [lv for lv in levels if lv <= limit]
+            title, ps = entries_of(t._Element__element)
+            texts = [odfws.raw_text(p) for p in ps]
+            exp_titles = [f"Title{i}" for i, lv in enumerate(levels) if lv <= limit]
+            if len(ps) != len(want) or any(not tx.endswith(" " + et) for tx, et in zip(texts, exp_titles)):
+                rec("entries", exp_titles, texts, "wrong-entries")
+            nums = outline_model(want)
+            for tx, nm in zip(texts, nums):
+                if nm is not None and not tx.startswith(nm + " "):
+                    rec("number", nm, tx, "wrong-number")
+                    break
+            if variant == "no-default-styles" and any(p.get("{%s}style-name" % TEXTNS) for p in ps):
+                rec("no-default-styles", "entries without the default entry styles", [p.get("{%s}style-name" % TEXTNS) for p in ps], "styles-applied-although-not-asked")
+    except Exception as e:
+        import traceback
+
+        rec("raises", "no exception", traceback.format_exc()[-300:], f"raises:{type(e).__name__}")
+    return nev, fails, cls
+
+
 def tasks_for(tier):
     if tier == "quick":
         LV, maxlen = (1, 2, 3, 10), 4
@@ -268,14 +330,21 @@ def run(prop, tier, vseed):
             if len(failures) > 20000:
                 failures = report.compact(failures)
             classes.add(c)
+        vtasks = [(lv, v) for n in range(0, 4) for lv in itertools.product((1, 2, 3), repeat=n)
+                  for v in ("two-tocs", "in-section", "no-default-styles", "detached")]
+        for a, f, c in pool.imap_unordered(variant_task, vtasks, chunksize=8):
+            nev += a
+            failures.extend(f)
+            classes.add(c)
+        tasks = tasks + vtasks
     cov = {
         "states": len(tasks),
         "transitions": nev,
         "traces_validated_against_impl": len(tasks),
         "evaluations": nev,
         "distinct_nontrivial": len(classes),
-        "rule": "every heading level sequence up to the length bound over the level alphabet (with outline level, TOC position, heading text kind and edit history rotated over the sequences, and their full product on sequences of length <= 2); histories fill / fill,fill / fill,edit,fill; distinct_nontrivial = distinct (skipped or contiguous, heading text kinds, edit) classes",
-        "samples": [{"levels": list(tasks[len(tasks) // 2][0]), "kinds": list(tasks[len(tasks) // 2][1]), "outline": tasks[len(tasks) // 2][2], "toc_pos": tasks[len(tasks) // 2][3], "history": tasks[len(tasks) // 2][4]}],
+        "rule": "every heading level sequence up to the length bound over the level alphabet (with outline level, TOC position, heading text kind and edit history rotated over the sequences, and their full product on sequences of length <= 2); histories fill / fill,fill / fill,edit,fill; headings inside sections / list items / table cells; TOC variants (two TOCs, TOC in a section, use_default_styles=False, detached TOC filled with document=) on every level sequence <= 3 over {1,2,3}; distinct_nontrivial = distinct (skipped or contiguous, heading text kinds, edit) classes",
+        "samples": [{"levels": [1, 2, 10], "kinds": ["plain", "note-in-span", "ws"], "outline": 2, "toc_pos": "middle", "history": ["fill", "edit-level", "fill"]}],
         "exhaustive": True,
     }
     assume = ["lxml, CPython trusted", "numbers for sequences with skipped levels are only required to have the right arity and to increase (no convention assumed)",
@@ -284,6 +353,11 @@ def run(prop, tier, vseed):
 
 
 def replay(rp):
+    if rp.get("variant"):
+        n, f, _ = variant_task((tuple(rp["levels"]), rp["variant"]))
+        for h in f[:3]:
+            print("FAIL", h["signature"], h["replay"]["expected"], h["replay"]["actual"])
+        return 1 if f else 0
     t = (tuple(rp["levels"]), tuple(rp["kinds"]), rp["outline"], rp["toc_pos"], rp["hist"], rp.get("where", "body"))
     n, f, _ = work(t)
     for h in f[:3]:
